@@ -329,3 +329,40 @@ def to_sexp(n_in, instrs, outs) -> str:
         a = " ".join(str(x) for x in args)
         items.append(f"({sexp_atom(nm)} ({p}) ({a}) {nout})")
     return f"(prog {n_in} ({' '.join(items)}) ({' '.join(str(o) for o in outs)}))"
+
+
+def descendants(h, n):
+    out, todo = [], [n]
+    while todo:
+        x = todo.pop()
+        for c in h.children(x):
+            out.append(c)
+            todo.append(c)
+    return out
+
+
+def linear_use_problems(h, fn):
+    """every output port of linear type below FuncDefn `fn` must be consumed exactly once (a lent qubit / array wire
+    used twice, or a fresh one left dangling, is an ill-formed Hugr)"""
+    probs = []
+    for n in [fn, *descendants(h, fn)]:
+        op = h[n].op
+        if isinstance(op, ops.FuncDefn | ops.FuncDecl | ops.Const | ops.CFG | ops.DataflowBlock | ops.ExitBlock | ops.Case):
+            if not isinstance(op, ops.CFG):
+                continue
+        try:
+            nout = _n_value_outputs(h, n) if not isinstance(op, ops.Input) else len(op.types)
+        except Exception:  # noqa: BLE001
+            continue
+        for i in range(nout):
+            try:
+                ty = h.port_type(n.out(i))
+                lin = ty is not None and ty.type_bound() == ht.TypeBound.Linear
+            except Exception:  # noqa: BLE001
+                continue
+            if not lin:
+                continue
+            k = len(list(h.linked_ports(n.out(i))))
+            if k != 1:
+                probs.append(f"{op_name(op)}#{n.idx} output {i} of linear type is consumed {k} times")
+    return probs
